@@ -1186,6 +1186,10 @@ caption_command(vbi_decoder *vbi, struct caption *cc,
 
 		case 12:	/* Erase Displayed Memory	001 c10f  010 1100 */
 // s1, s4: EDM always before EOC
+			/* EIA 608-B Section 7.7, Annex B.7: EDM and ENM apply to
+			   the caption channel even while Text is transmitted. */
+			ch = &cc->channel[chan & 3];
+
 			if (ch->mode != MODE_POP_ON)
 				erase_memory(cc, ch, ch->hidden);
 
@@ -1196,6 +1200,8 @@ caption_command(vbi_decoder *vbi, struct caption *cc,
 
 		case 14:	/* Erase Non-Displayed Memory	001 c10f  010 1110 */
 // not verified
+			ch = &cc->channel[chan & 3];
+
 			if (ch->mode == MODE_POP_ON)
 				erase_memory(cc, ch, ch->hidden);
 
